@@ -37,6 +37,8 @@ pub struct Profile {
     pub huge_payloads: bool,
     /// flush(None) (no callback) as a frequent op
     pub flush_none_heavy: bool,
+    /// update_state() calls that move `last` without touching the entries
+    pub update_state: bool,
 }
 
 #[derive(Clone, Copy, Debug, PartialEq, Eq)]
@@ -69,6 +71,7 @@ impl Profile {
             eager_worker_pct: 15,
             huge_payloads: false,
             flush_none_heavy: false,
+            update_state: false,
         }
     }
 }
@@ -398,6 +401,18 @@ impl G<'_> {
         }
     }
 
+    /// update_state moving `last` back (or forth) without touching the entries
+    fn gen_update_last(&mut self) -> Op {
+        let l = match self.rng.below(4) {
+            0 => None,
+            1 => self.m.st.last.map(|l| (l.0, l.1.saturating_sub(1 + self.rng.below(2)))),
+            2 => self.m.st.purged,
+            _ => self.m.st.last.map(|l| (l.0, l.1.saturating_add(1))),
+        };
+        self.m.st.last = l;
+        Op::UpdateLast(l)
+    }
+
     /// Boundary / hostile arguments (C16): may be accepted or rejected; the model decides.
     fn gen_hostile(&mut self) -> Op {
         let l = self.m.st.last.unwrap_or((0, 0));
@@ -418,17 +433,7 @@ impl G<'_> {
         };
         match self.rng.below(11) {
             8 => Op::Append(vec![]), // an empty batch
-            9 | 10 => {
-                // update_state moving `last` back (or forth) without touching the entries
-                let l = match self.rng.below(4) {
-                    0 => None,
-                    1 => self.m.st.last.map(|l| (l.0, l.1.saturating_sub(1 + self.rng.below(2)))),
-                    2 => self.m.st.purged,
-                    _ => self.m.st.last.map(|l| (l.0, l.1.saturating_add(1))),
-                };
-                self.m.st.last = l;
-                Op::UpdateLast(l)
-            }
+            9 | 10 => self.gen_update_last(),
             0 | 1 => {
                 let a = around(self.rng);
                 let b = around(self.rng);
@@ -562,10 +567,11 @@ pub fn gen_spec(prop: &str, run_seed: u64, p: &Profile) -> Spec {
     let w_readers = if p.readers { w(&mut rng, &[1, 2]) } else { 0 };
     let w_idle = if p.wait_idle { w(&mut rng, &[0, 1, 2]) } else { 0 };
     let w_quiesce = w(&mut rng, &[0, 0, 1]);
+    let w_update = if p.update_state { w(&mut rng, &[1, 2]) } else { 0 };
     let wait_pct = if p.flush_heavy { *rng.pick(&[70u64, 90, 100]) } else { *rng.pick(&[20u64, 50, 80, 100]) };
     let weights = [
         w_append, w_vote, w_trunc, w_purge, w_commit, w_ud, w_flush, w_flush_none, w_read, w_stat, w_dump, w_restart, w_race, w_rej, w_host,
-        w_readers, w_idle, w_quiesce,
+        w_readers, w_idle, w_quiesce, w_update,
     ];
 
     let lower_term = p.lower_term && rng.chance(40);
@@ -602,6 +608,7 @@ pub fn gen_spec(prop: &str, run_seed: u64, p: &Profile) -> Spec {
             14 => Some(g.gen_hostile()),
             15 => Some(Op::Readers { n: g.rng.range(1, 3) as u8, rounds: g.rng.range(1, 3) as u8 }),
             16 => Some(Op::WaitIdle),
+            18 => Some(g.gen_update_last()),
             _ => Some(Op::Quiesce),
         };
         if let Some(op) = op {
